@@ -124,10 +124,28 @@ def t2(ctx):
     # nobody but the manager (and the constructor) assigns the owner field
     import ast as _ast
     writers = []
+    from .model import walk_shallow as _ws, dotted as _dotted
+    # private helper methods of the manager (called by it, and by nobody else) count as the manager
+    helpers = set()
+    work = [f]
+    while work:
+        h = work.pop()
+        for n in _ast.walk(h.node):
+            if isinstance(n, _ast.Call) and (_dotted(n.func) or '').startswith('self._'):
+                m = ctx.prog.classes['Cache'].methods.get(_dotted(n.func)[5:])
+                if m is not None and m not in helpers and m is not f and not m.is_property and not m.is_contextmanager:
+                    helpers.add(m)
+                    work.append(m)
+    for h in list(helpers):
+        for g in ctx.prog.all_funcs():
+            if g is f or g in helpers or g.qual.startswith(f.qual + '.<locals>.'):
+                continue
+            if any(isinstance(n, _ast.Attribute) and n.attr == h.name for n in _ast.walk(g.node)):
+                helpers.discard(h)      # reachable from elsewhere: judged as an ordinary function
     for g in ctx.prog.all_funcs():
-        if g.module != 'core' or g is f or g.name == '__init__' or g.qual.startswith(f.qual + '.<locals>.'):
+        if g.module != 'core' or g is f or g.name == '__init__' or g.qual.startswith(f.qual + '.<locals>.') \
+                or g in helpers:
             continue
-        from .model import walk_shallow as _ws
         for n in _ws(g.node):
             if isinstance(n, _ast.Attribute) and isinstance(n.ctx, (_ast.Store, _ast.Del)) and n.attr in owner_attrs:
                 writers.append((g, n))
